@@ -1449,6 +1449,18 @@ int32 matrixUpdateSession(ssl_t *ssl)
         psUnlockMutex(&g_sessionTableLock);
         return PS_FAILURE;
     }
+    /* Several connections can share one entry (the original and its
+       resumptions). If the entry was invalidated by a fatal alert on one of
+       them, or is not (any longer) the entry of this connection's session id,
+       closing this connection must not write its secret back: that would
+       make the invalidated session resumable again. */
+    if (g_sessionTable[i].cipher == NULL ||
+        ssl->sessionIdLen != SSL_MAX_SESSION_ID_SIZE ||
+        Memcmp(g_sessionTable[i].id, id, SSL_MAX_SESSION_ID_SIZE) != 0)
+    {
+        psUnlockMutex(&g_sessionTableLock);
+        return PS_FAILURE;
+    }
     Memcpy(g_sessionTable[i].masterSecret, ssl->sec.masterSecret,
         SSL_HS_MASTER_SIZE);
     g_sessionTable[i].cipher = ssl->cipher;
